@@ -141,9 +141,12 @@ Proof.
         { right. exists [], r, R, (d :: D), (x :: l). cbn [concat app]. repeat split; auto; congruence. }
 Qed.
 
-(* ---------- packets arriving in order ---------- *)
+(* ---------- packets arriving in order (sequence numbers modulo 2^32, any initial sequence number) ---------- *)
+Local Ltac euclid := Z.to_euclidean_division_equations; lia.
+Notation M32 := 4294967296.
+
 Fixpoint in_order (s0 : Z) (ps : list packet) : Prop :=
-  match ps with [] => True | p :: r => p_seq p = s0 /\ p_data p <> [] /\ in_order (s0 + len (p_data p)) r end.
+  match ps with [] => True | p :: r => p_seq p = s0 mod M32 /\ p_data p <> [] /\ in_order (s0 + len (p_data p)) r end.
 Definition data (ps : list packet) : bytes := concat (map p_data ps).
 
 Lemma in_order_app s0 a b : in_order s0 (a ++ b) <-> in_order s0 a /\ in_order (s0 + len (data a)) b.
@@ -156,92 +159,137 @@ Qed.
 Lemma len_pos_ne (c : bytes) : c <> [] -> 0 < len c.
 Proof. destruct c; [congruence|]. intros _. rewrite len_cons. pose proof (len_nonneg c). lia. Qed.
 
-Lemma in_order_seq_bound s0 ps p : in_order s0 ps -> In p ps -> s0 <= p_seq p < s0 + len (data ps).
+Lemma seq_lt_ahead a L : 0 < L < 2147483648 -> seq_lt ((a + L) mod M32) (a mod M32) = false.
+Proof. intros HL. unfold seq_lt, seq_cmp. apply Z.ltb_ge. euclid. Qed.
+
+(* every packet of an in-order run lies at a stream offset in [0, len) from s0 *)
+Lemma in_order_offsets s0 ps p : in_order s0 ps -> In p ps -> exists o, 0 <= o < len (data ps) /\ p_seq p = (s0 + o) mod M32.
 Proof.
   revert s0. induction ps as [|q ps IH]; intros s0 Ho Hin; [destruct Hin|].
   cbn [in_order] in Ho. destruct Ho as (Hs & Hne & Hr). cbn [data map concat]. rewrite len_app. fold (data ps).
   pose proof (len_pos_ne _ Hne). pose proof (len_nonneg (data ps)).
-  destruct Hin as [->|Hin]; [lia|]. specialize (IH _ Hr Hin). lia.
+  destruct Hin as [->|Hin].
+  - exists 0. rewrite Z.add_0_r. split; [lia|exact Hs].
+  - destruct (IH _ Hr Hin) as (o & Ho & Hq). exists (len (p_data q) + o). split; [lia|]. rewrite Hq. f_equal. lia.
 Qed.
 
-Lemma insert_end s0 ps p : in_order s0 ps -> p_seq p = s0 + len (data ps) -> insert_seq p ps = ps ++ [p].
+Lemma insert_end s0 ps p : in_order s0 ps -> len (data ps) < 2147483648 -> p_seq p = (s0 + len (data ps)) mod M32 -> insert_seq p ps = ps ++ [p].
 Proof.
-  revert s0. induction ps as [|q ps IH]; intros s0 Ho Hp; [reflexivity|].
-  cbn [insert_seq app]. cbn [in_order] in Ho. destruct Ho as (Hs & Hne & Hr).
-  cbn [data map concat] in Hp. rewrite len_app in Hp. fold (data ps) in Hp.
-  pose proof (len_pos_ne _ Hne). pose proof (len_nonneg (data ps)).
-  replace (p_seq p <? p_seq q) with false by (symmetry; apply Z.ltb_ge; lia).
-  f_equal. apply (IH (s0 + len (p_data q))); [exact Hr|lia].
+  intros Ho Hlen Hp.
+  assert (G: forall q, In q ps -> seq_lt (p_seq p) (p_seq q) = false).
+  { intros q Hq. destruct (in_order_offsets _ _ _ Ho Hq) as (o & Hoo & ->). rewrite Hp.
+    replace (s0 + len (data ps)) with ((s0 + o) + (len (data ps) - o)) by lia. apply seq_lt_ahead. lia. }
+  clear Ho Hp Hlen. induction ps as [|q ps IH]; [reflexivity|]. cbn [insert_seq app].
+  rewrite (G q (or_introl eq_refl)). f_equal. apply IH. intros x Hx. apply G. right. exact Hx.
 Qed.
 
-Lemma sort_in_order s0 ps : in_order s0 ps -> sort_seq ps = ps.
+Lemma sort_in_order s0 ps : in_order s0 ps -> len (data ps) < 2147483648 -> sort_seq ps = ps.
 Proof.
-  intros Ho. unfold sort_seq.
-  assert (G: forall post pre, in_order s0 (pre ++ post) -> fold_left (fun acc p => insert_seq p acc) post pre = pre ++ post).
-  { induction post as [|p post IH]; intros pre H; cbn [fold_left]; [rewrite app_nil_r; reflexivity|].
+  intros Ho Hlen. unfold sort_seq.
+  assert (G: forall post pre, in_order s0 (pre ++ post) -> len (data (pre ++ post)) < 2147483648 ->
+             fold_left (fun acc p => insert_seq p acc) post pre = pre ++ post).
+  { induction post as [|p post IH]; intros pre H HL; cbn [fold_left]; [rewrite app_nil_r; reflexivity|].
     apply in_order_app in H as Hs. destruct Hs as [Hpre Hpost]. cbn [in_order] in Hpost. destruct Hpost as (Hp & _ & _).
-    rewrite (insert_end s0 pre p Hpre Hp). rewrite IH by (rewrite <- app_assoc; exact H). rewrite <- app_assoc. reflexivity. }
-  apply (G ps []). exact Ho.
+    assert (Hl2: len (data pre) < 2147483648).
+    { unfold data in *. rewrite map_app, concat_app, len_app in HL. pose proof (len_nonneg (concat (map p_data (p :: post)))). lia. }
+    rewrite (insert_end s0 pre p Hpre Hl2 Hp). rewrite IH; rewrite <- app_assoc; [reflexivity|exact H|exact HL]. }
+  apply (G ps []); assumption.
 Qed.
 
 Lemma contiguous_in_order s0 ps : in_order s0 ps -> contiguous ps = true.
 Proof.
   revert s0. induction ps as [|p ps IH]; intros s0 Ho; [reflexivity|]. destruct ps as [|q ps]; [reflexivity|].
-  change (contiguous (p :: q :: ps)) with ((p_seq p + len (p_data p) =? p_seq q) && contiguous (q :: ps)).
+  change (contiguous (p :: q :: ps)) with (((p_seq p + len (p_data p)) mod M32 =? p_seq q) && contiguous (q :: ps)).
   cbn [in_order] in Ho. destruct Ho as (Hs & Hne & Hq & Hr).
-  rewrite Hs, Hq, Z.eqb_refl. cbn [andb]. apply (IH (s0 + len (p_data p))). cbn [in_order]. auto.
+  rewrite Hs, Hq. rewrite Zplus_mod_idemp_l, Z.eqb_refl. cbn [andb]. apply (IH (s0 + len (p_data p))). cbn [in_order]. auto.
 Qed.
 
 Lemma length_le_concat R : Forall wf_rec R -> (length R <= length (concat R))%nat.
 Proof. induction 1 as [|r R Hr _ IH]; cbn [concat length]; [lia|]. destruct Hr as (_ & H5 & _). rewrite app_length. unfold len in H5. lia. Qed.
 
-(* one direction fed packet by packet: final buffer and the records released, in order *)
-Fixpoint feed (buf : list packet) (ps : list packet) : result (list packet * list tls_record) :=
+(* one direction fed packet by packet: final "next", final buffer and the records released, in order *)
+Fixpoint feed (next : option Z) (buf : list packet) (ps : list packet) : result (option Z * list packet * list tls_record) :=
   match ps with
-  | [] => Ok (buf, [])
-  | p :: r => do x <- extract (buf ++ [p]); do y <- feed (fst x) r; Ok (fst y, snd x ++ snd y)
+  | [] => Ok (next, buf, [])
+  | p :: r => do x <- extract next (buf ++ [p]);
+              let '(n1, b1, o1) := x in
+              do y <- feed n1 b1 r; let '(n2, b2, o2) := y in Ok (n2, b2, o1 ++ o2)
   end.
 
-Theorem inorder_delivers : forall chunks pend s0 R,
-  in_order s0 (pend ++ chunks) -> Forall wf_rec R -> data pend ++ data chunks = concat R ->
-  (pend = [] \/ forall f, (length (data pend) < f)%nat -> walk f (data pend) 0 = Ok false) ->
-  exists recs, feed pend chunks = Ok ([], recs) /\ map r_raw recs = R.
+Lemma last_of_app {A} (l : list A) (x : A) : rev (l ++ [x]) = x :: rev l.
+Proof. rewrite rev_app_distr. reflexivity. Qed.
+
+Lemma in_order_last s0 ps c : in_order s0 (ps ++ [c]) ->
+  (p_seq c + len (p_data c)) mod M32 = (s0 + len (data (ps ++ [c]))) mod M32.
 Proof.
-  induction chunks as [|c chunks IH]; intros pend s0 R Ho HR Heq Hp.
+  intros Ho. apply in_order_app in Ho as [_ Hc]. cbn [in_order] in Hc. destruct Hc as (Hs & _ & _).
+  unfold data. rewrite map_app, concat_app, len_app. cbn [map concat]. rewrite app_nil_r. fold (data ps).
+  rewrite Hs, Zplus_mod_idemp_l. f_equal. lia.
+Qed.
+
+(* the stream starts at virtual offset s0 (sequence number s0 mod 2^32): whatever was consumed before, "next" is absent or says s0 *)
+Theorem inorder_delivers : forall chunks pend s0 next R,
+  in_order s0 (pend ++ chunks) -> len (data (pend ++ chunks)) < 2147483648 ->
+  Forall wf_rec R -> data pend ++ data chunks = concat R ->
+  (next = None \/ next = Some (s0 mod M32)) ->
+  (pend = [] \/ forall f, (length (data pend) < f)%nat -> walk f (data pend) 0 = Ok false) ->
+  exists n' recs, feed next pend chunks = Ok (n', [], recs) /\ map r_raw recs = R /\
+                  (chunks <> [] -> n' = Some ((s0 + len (data (pend ++ chunks))) mod M32)).
+Proof.
+  induction chunks as [|c chunks IH]; intros pend s0 next R Ho Hlen HR Heq Hnx Hp.
   - cbn [feed data map concat] in *. rewrite app_nil_r in Heq. destruct Hp as [->|Hp].
-    + cbn in Heq. destruct R as [|r R]; [exists []; split; reflexivity|]. exfalso. inversion HR as [|r' R' Hr' HR']; subst. destruct Hr' as (Hok & H5 & _).
+    + cbn in Heq. destruct R as [|r R]; [exists next, []; repeat split; congruence|]. exfalso. inversion HR as [|r' R' Hr' HR']; subst. destruct Hr' as (Hok & H5 & _).
       cbn [concat] in Heq. assert (Hz: len (r ++ concat R) = 0) by (rewrite <- Heq; reflexivity). rewrite len_app in Hz. pose proof (len_nonneg (concat R)). lia.
     + exfalso. specialize (Hp (S (length (data pend))) ltac:(lia)). rewrite Heq in Hp. pose proof (length_le_concat R HR). rewrite walk_complete in Hp by (auto; lia). discriminate.
   - cbn [feed]. unfold extract.
     assert (Ho1: in_order s0 (pend ++ [c])).
     { replace (pend ++ c :: chunks) with ((pend ++ [c]) ++ chunks) in Ho by (rewrite <- app_assoc; reflexivity). apply in_order_app in Ho. apply Ho. }
-    rewrite (sort_in_order s0 _ Ho1), (contiguous_in_order s0 _ Ho1).
+    assert (Hl1: len (data (pend ++ [c])) < 2147483648).
+    { replace (pend ++ c :: chunks) with ((pend ++ [c]) ++ chunks) in Hlen by (rewrite <- app_assoc; reflexivity).
+      unfold data in *. rewrite map_app, concat_app, len_app in Hlen. pose proof (len_nonneg (concat (map p_data chunks))). lia. }
+    rewrite (sort_in_order s0 _ Ho1 Hl1), (contiguous_in_order s0 _ Ho1).
+    (* the gate: the first buffered packet is the one that continues the stream *)
+    assert (Hgate: match next, pend ++ [c] with Some n, p :: _ => p_seq p =? n | _, _ => true end = true).
+    { destruct Hnx as [->| ->]; [reflexivity|]. destruct pend as [|q pend]; cbn [app] in *; cbn [in_order] in Ho1; destruct Ho1 as (Hs & _); rewrite Hs; apply Z.eqb_refl. }
+    rewrite Hgate. cbn [andb].
     fold (data (pend ++ [c])).
     assert (Hcat: data (pend ++ [c]) = data pend ++ p_data c) by (unfold data; rewrite map_app, concat_app; cbn [map concat]; rewrite app_nil_r; reflexivity).
     assert (Heq1: data (pend ++ [c]) ++ data chunks = concat R).
     { rewrite Hcat, <- app_assoc. cbn [data map concat] in Heq. exact Heq. }
     assert (Ho2: in_order s0 ((pend ++ [c]) ++ chunks)) by (rewrite <- app_assoc; exact Ho).
+    assert (Hlen2: len (data ((pend ++ [c]) ++ chunks)) < 2147483648) by (rewrite <- app_assoc; exact Hlen).
     pose proof (length_le_concat R HR) as HlenR.
     destruct (prefix_split R HR _ _ Heq1) as [(R1 & R2 & -> & HD & HX)|(R1 & r & R2 & t & u & -> & -> & Ht & Hu & HD & HX)].
     + apply Forall_app in HR as [HR1 HR2].
-      rewrite HD. pose proof (length_le_concat R1 HR1) as Hlen.
+      rewrite HD. pose proof (length_le_concat R1 HR1) as Hlen1.
       rewrite walk_complete by (auto; lia). cbn [bind].
       destruct (cut_complete R1 HR1 (S (length (concat R1))) (ranges (pend ++ [c]) 0) ltac:(lia)) as (recs1 & Hc1 & Hm1).
-      rewrite Hc1. cbn [bind fst snd].
-      destruct (IH [] (s0 + len (data (pend ++ [c]))) R2) as (recs2 & Hf2 & Hm2).
+      rewrite Hc1. cbn [bind]. rewrite last_of_app.
+      rewrite (in_order_last s0 pend c Ho1).
+      destruct (IH [] (s0 + len (data (pend ++ [c]))) (Some ((s0 + len (data (pend ++ [c]))) mod M32)) R2) as (n2 & recs2 & Hf2 & Hm2 & Hn2).
       * cbn [app]. apply in_order_app in Ho2. apply Ho2.
+      * cbn [app]. unfold data in *. rewrite map_app, concat_app, len_app in Hlen2. pose proof (len_nonneg (concat (map p_data (pend ++ [c])))). lia.
       * exact HR2.
       * cbn [data map concat app]. exact HX.
+      * right; reflexivity.
       * left; reflexivity.
-      * rewrite Hf2. cbn [bind fst snd]. eexists. split; [reflexivity|]. rewrite map_app, Hm1, Hm2. reflexivity.
+      * rewrite Hf2. cbn [bind]. eexists _, _. split; [reflexivity|]. split; [rewrite map_app, Hm1, Hm2; reflexivity|].
+        intros _. destruct chunks as [|c2 chunks2].
+        { cbn [feed] in Hf2. injection Hf2 as <- _. reflexivity. }
+        { rewrite (Hn2 ltac:(discriminate)). f_equal. f_equal. cbn [app].
+          replace (pend ++ c :: c2 :: chunks2) with ((pend ++ [c]) ++ c2 :: chunks2) by (rewrite <- app_assoc; reflexivity).
+          unfold data. rewrite (map_app p_data (pend ++ [c])), concat_app, len_app. lia. }
     + assert (Hw: forall f, (length (data (pend ++ [c])) < f)%nat -> walk f (data (pend ++ [c])) 0 = Ok false).
       { intros f Hf. rewrite HD in *. apply Forall_app in HR as [HR1 HR2]. inversion HR2; subst.
         eapply walk_partial; eauto.
         pose proof (length_le_concat _ HR1). rewrite app_length in Hf.
         assert (0 < length t)%nat by (destruct t; [congruence|cbn; lia]). lia. }
-      rewrite Hw by lia. cbn [bind fst snd].
-      destruct (IH (pend ++ [c]) s0 (R1 ++ (t ++ u) :: R2) Ho2 HR Heq1 ltac:(right; exact Hw)) as (recs & Hf & Hm).
-      rewrite Hf. cbn [bind fst snd]. exists recs. split; [reflexivity|exact Hm].
+      rewrite Hw by lia. cbn [bind].
+      destruct (IH (pend ++ [c]) s0 next (R1 ++ (t ++ u) :: R2) Ho2 Hlen2 HR Heq1 Hnx ltac:(right; exact Hw)) as (n2 & recs & Hf & Hm & Hn2).
+      rewrite Hf. cbn [bind]. exists n2, recs. split; [reflexivity|]. split; [exact Hm|].
+      intros _. destruct chunks as [|c2 chunks2].
+      { exfalso. cbn [data map concat] in HX. symmetry in HX. apply app_eq_nil in HX as [Hu0 _]. contradiction. }
+      { rewrite (Hn2 ltac:(discriminate)). rewrite <- app_assoc. reflexivity. }
 Qed.
 
 (* ---------- retransmitted duplicates (Session.handle_packet keeps a per-direction memory of sequence numbers) ---------- *)
@@ -271,18 +319,21 @@ Proof.
     symmetry. apply mem_Z_In. rewrite Hq. apply in_map. exact Hin.
 Qed.
 
-Lemma in_order_nodup s0 ps : in_order s0 ps -> NoDup (map p_seq ps).
+Lemma in_order_nodup s0 ps : in_order s0 ps -> len (data ps) < 2147483648 -> NoDup (map p_seq ps).
 Proof.
-  revert s0. induction ps as [|p ps IH]; intros s0 Ho; [constructor|]. cbn [in_order] in Ho. destruct Ho as (Hs & Hne & Hr).
-  cbn [map]. constructor; [|apply (IH _ Hr)]. intros Hin. apply in_map_iff in Hin as (q & Hq & Hqin).
-  pose proof (in_order_seq_bound _ _ _ Hr Hqin). pose proof (len_pos_ne _ Hne). lia.
+  revert s0. induction ps as [|p ps IH]; intros s0 Ho Hl; [constructor|]. cbn [in_order] in Ho. destruct Ho as (Hs & Hne & Hr).
+  cbn [data map concat] in Hl. rewrite len_app in Hl. fold (data ps) in Hl. pose proof (len_pos_ne _ Hne) as Hpos. pose proof (len_nonneg (data ps)).
+  cbn [map]. constructor; [|apply (IH _ Hr); lia]. intros Hin. apply in_map_iff in Hin as (q & Hq & Hqin).
+  destruct (in_order_offsets _ _ _ Hr Hqin) as (o & Hoo & Hqs). rewrite Hqs, Hs in Hq.
+  revert Hq. clear - Hpos Hoo Hl H. intros Hq. Z.to_euclidean_division_equations. lia.
 Qed.
 
-(* C05 (a)+(b), per direction: any segmentation, with any retransmitted duplicates, delivers exactly the records *)
+(* C05 (a)+(b)+(d), per direction: any segmentation, with any retransmitted duplicates, from any initial sequence number
+   (the stream may run across 2^32), delivers exactly the records *)
 Theorem segmentation_and_duplicates_deliver isn chunks arrivals R :
-  in_order isn chunks -> with_dups chunks arrivals -> Forall wf_rec R -> data chunks = concat R ->
-  exists recs, feed [] (snd (fold_left accept arrivals ([], []))) = Ok ([], recs) /\ map r_raw recs = R.
+  in_order isn chunks -> len (data chunks) < 2147483648 -> with_dups chunks arrivals -> Forall wf_rec R -> data chunks = concat R ->
+  exists n' recs, feed None [] (snd (fold_left accept arrivals ([], []))) = Ok (n', [], recs) /\ map r_raw recs = R.
 Proof.
-  intros Ho Hw HR Hd. rewrite (dedupe_restores _ _ Hw (in_order_nodup _ _ Ho)). cbn [snd].
-  apply (inorder_delivers chunks [] isn R); auto.
+  intros Ho Hl Hw HR Hd. rewrite (dedupe_restores _ _ Hw (in_order_nodup _ _ Ho Hl)). cbn [snd].
+  destruct (inorder_delivers chunks [] isn None R) as (n' & recs & Hf & Hm & _); auto. exists n', recs. auto.
 Qed.
